@@ -1,4 +1,6 @@
 import CatiiProofs.IIndexShift
+import CatiiProps.C19
+import CatiiProofs.ColumnStack
 /-! `to_array()` materialises exactly the dense abstraction `denseAt` (C01, last step of the round trip).
 Core Lean only. -/
 namespace Catii.IIdx
@@ -203,21 +205,25 @@ theorem denseAt_of_mem' (i : IIndex) (h : Scatterable i) (e : Key × Rows) (he :
   denseAt_eq i r hi _ ⟨e, he, hhi, hr⟩
     (fun f hf hf1 hf2 => h.exclusive f hf e he (by rw [hf1, hhi]) r hf2 hr)
 
-theorem scatter_dense (i : IIndex) (h : Scatterable i) (hnd : i.ndim ≤ 2) (dt : Option DT) (arr : Arr)
-    (ht : scatter i i.common dt (i.entries.map fun e => (e.1, e.2, val0 e.1)) = .ok arr) :
+/-- the scatter with an arbitrary fill value and an arbitrary value written per entry (a function of the
+entry's category): listed cells hold the written value, the others the fill value -/
+theorem scatter_dense_gen (i : IIndex) (h : Scatterable i) (hnd : i.ndim ≤ 2) (dt : Option DT) (fill : Int)
+    (G : Int → Int) (arr : Arr)
+    (ht : scatter i fill dt (i.entries.map fun e => (e.1, e.2, G (val0 e.1))) = .ok arr) :
     arr.shape = i.shape ∧ ∀ r < i.nrows, ∀ hi ∈ hiCells (i.shape.drop 1),
-      arr.data.getD (r * ncolsOf i + colOf i.ndim (0 :: hi)) 0 = denseAt i r hi := by
+      arr.data.getD (r * ncolsOf i + colOf i.ndim (0 :: hi)) 0 =
+        if (∃ e ∈ i.entries, e.1.drop 1 = hi ∧ r ∈ e.2) then G (denseAt i r hi) else fill := by
   unfold scatter at ht
   have hnd' : ¬ i.ndim > 2 := by omega
   simp only [hnd', if_false, pure, Except.pure, bind, Except.bind] at ht
-  by_cases hfill : (!dtFits dt i.common) = true
+  by_cases hfill : (!dtFits dt fill) = true
   · simp [hfill, throw, throwThe, MonadExceptOf.throw] at ht
   · simp only [hfill, Bool.false_eq_true, if_false] at ht
     have hnc : (if i.ndim > 1 then i.shape.getD 1 0 else 1) = ncolsOf i := rfl
     rw [hnc] at ht
     cases hf : List.foldlM (scatStep i.ndim (dtFits dt) i.nrows (ncolsOf i))
-        (Array.replicate (i.nrows * ncolsOf i) i.common)
-        (List.map (fun e => (e.fst, e.snd, val0 e.fst)) i.entries) with
+        (Array.replicate (i.nrows * ncolsOf i) fill)
+        (List.map (fun e => (e.fst, e.snd, G (val0 e.fst))) i.entries) with
     | error err => rw [hf] at ht; cases ht
     | ok out =>
       rw [hf] at ht
@@ -233,13 +239,13 @@ theorem scatter_dense (i : IIndex) (h : Scatterable i) (hnd : i.ndim ≤ 2) (dt 
         omega
       have hc0 : colOf i.ndim (0 :: hi) = c := ((hkey (0 :: hi) hlen (by simpa using hhi)).2).mp (by simp)
       rw [hc0]
-      have hj : r * ncolsOf i + c < (Array.replicate (i.nrows * ncolsOf i) i.common).size := by
+      have hj : r * ncolsOf i + c < (Array.replicate (i.nrows * ncolsOf i) fill).size := by
         rw [Array.size_replicate]
         have := Nat.mul_le_mul_right (ncolsOf i) (Nat.succ_le_of_lt hr)
         rw [Nat.succ_mul] at this
         omega
       -- which entries write this cell
-      have hhits : ∀ e ∈ i.entries, Hits i.ndim (ncolsOf i) (e.1, e.2, val0 e.1) (r * ncolsOf i + c) ↔
+      have hhits : ∀ e ∈ i.entries, Hits i.ndim (ncolsOf i) (e.1, e.2, G (val0 e.1)) (r * ncolsOf i + c) ↔
           (e.1.drop 1 = hi ∧ r ∈ e.2) := by
         intro e he
         by_cases hemp : e.2 = []
@@ -253,23 +259,183 @@ theorem scatter_dense (i : IIndex) (h : Scatterable i) (hnd : i.ndim ≤ 2) (dt 
           exact ⟨hk.2.mpr h2.symm, h1 ▸ hr'⟩
         · rintro ⟨h1, h2⟩
           exact ⟨r, h2, by rw [hk.2.mp h1]⟩
-      have hval : ∀ e' ∈ List.map (fun e => (e.fst, e.snd, val0 e.fst)) i.entries,
-          Hits i.ndim (ncolsOf i) e' (r * ncolsOf i + c) → e'.2.2 = denseAt i r hi := by
+      have hval : ∀ e' ∈ List.map (fun e => (e.fst, e.snd, G (val0 e.fst))) i.entries,
+          Hits i.ndim (ncolsOf i) e' (r * ncolsOf i + c) → e'.2.2 = G (denseAt i r hi) := by
         intro e' he' hh
         obtain ⟨e, he, rfl⟩ := List.mem_map.mp he'
         obtain ⟨h1, h2⟩ := (hhits e he).mp hh
-        exact (denseAt_of_mem' i h e he r hi h1 h2).symm
-      have := hcell _ hj (denseAt i r hi) hval
+        rw [denseAt_of_mem' i h e he r hi h1 h2]
+      have := hcell _ hj (G (denseAt i r hi)) hval
       rw [List.getD_eq_getElem?_getD, Array.getElem?_toList, this]
-      by_cases hex : ∃ e' ∈ List.map (fun e => (e.fst, e.snd, val0 e.fst)) i.entries,
+      by_cases hex : ∃ e' ∈ List.map (fun e => (e.fst, e.snd, G (val0 e.fst))) i.entries,
           Hits i.ndim (ncolsOf i) e' (r * ncolsOf i + c)
-      · rw [if_pos hex]; rfl
+      · rw [if_pos hex]
+        obtain ⟨e', he', hh⟩ := hex
+        obtain ⟨e, he, rfl⟩ := List.mem_map.mp he'
+        obtain ⟨h1, h2⟩ := (hhits e he).mp hh
+        rw [if_pos ⟨e, he, h1, h2⟩]; rfl
       · rw [if_neg hex, Array.getElem?_replicate]
         rw [Array.size_replicate] at hj
         rw [if_pos hj]
-        symm
-        apply denseAt_of_not_mem
-        intro e he h1 h2
-        exact hex ⟨_, List.mem_map.mpr ⟨e, he, rfl⟩, (hhits e he).mpr ⟨h1, h2⟩⟩
+        have : ¬ ∃ e ∈ i.entries, e.1.drop 1 = hi ∧ r ∈ e.2 := by
+          rintro ⟨e, he, h1, h2⟩
+          exact hex ⟨_, List.mem_map.mpr ⟨e, he, rfl⟩, (hhits e he).mpr ⟨h1, h2⟩⟩
+        rw [if_neg this]; rfl
+
+theorem scatter_dense (i : IIndex) (h : Scatterable i) (hnd : i.ndim ≤ 2) (dt : Option DT) (arr : Arr)
+    (ht : scatter i i.common dt (i.entries.map fun e => (e.1, e.2, val0 e.1)) = .ok arr) :
+    arr.shape = i.shape ∧ ∀ r < i.nrows, ∀ hi ∈ hiCells (i.shape.drop 1),
+      arr.data.getD (r * ncolsOf i + colOf i.ndim (0 :: hi)) 0 = denseAt i r hi := by
+  obtain ⟨h1, h2⟩ := scatter_dense_gen i h hnd dt i.common id arr ht
+  refine ⟨h1, fun r hr hi hhi => ?_⟩
+  rw [h2 r hr hi hhi]
+  by_cases hex : ∃ e ∈ i.entries, e.1.drop 1 = hi ∧ r ∈ e.2
+  · rw [if_pos hex]; rfl
+  · rw [if_neg hex]
+    exact (denseAt_of_not_mem i r hi (fun e he h1 h2 => hex ⟨e, he, h1, h2⟩)).symm
+
+/-- a successful `mapping[value]` lookup for every entry is the map with default -/
+theorem mapM_lookup (m : List (Int × Int)) (es : List (Key × Rows)) (vals : List (Key × Rows × Int))
+    (h : es.mapM (mapEntry m) = .ok vals) :
+    vals = es.map fun e => (e.1, e.2, (lookup m (val0 e.1)).getD 0) := by
+  induction es generalizing vals with
+  | nil => simp only [List.mapM_nil, pure, Except.pure, Except.ok.injEq] at h; rw [← h]; rfl
+  | cons e rest ih =>
+    rw [List.mapM_cons] at h
+    cases hl : lookup m (val0 e.1) with
+    | none => simp [mapEntry, hl, bind, Except.bind, throw, throwThe, MonadExceptOf.throw] at h
+    | some v =>
+      simp only [mapEntry, hl, bind, Except.bind, pure, Except.pure] at h
+      cases hr : rest.mapM (mapEntry m) with
+      | error err => rw [hr] at h; cases h
+      | ok vs =>
+        rw [hr] at h
+        simp only [Except.ok.injEq] at h
+        rw [← h, ih vs hr]
+        simp [hl]
+
+/-- **`to_array(mapping=m)`**: every cell holds `m[value of the cell]` (`m.get(common, 0)` where the common
+value is not a key of the mapping) -/
+theorem toArray_mapped (i : IIndex) (h : Scatterable i) (hnd : i.ndim ≤ 2) (m : List (Int × Int)) (hm : m ≠ [])
+    (dt : Option DT) (arr : Arr) (ht : toArray i (some m) dt = .ok arr) :
+    arr.shape = i.shape ∧ ∀ r < i.nrows, ∀ hi ∈ hiCells (i.shape.drop 1),
+      arr.data.getD (r * ncolsOf i + colOf i.ndim (0 :: hi)) 0 = (lookup m (denseAt i r hi)).getD 0 := by
+  unfold toArray at ht
+  match m, hm with
+  | p :: ps, _ =>
+    simp only [bind, Except.bind] at ht
+    split at ht
+    · cases ht
+    · rename_i vals hvals
+      have hv := mapM_lookup (p :: ps) i.entries vals hvals
+      rw [hv] at ht
+      obtain ⟨h1, h2⟩ := scatter_dense_gen i h hnd _ _ (fun v => (lookup (p :: ps) v).getD 0) arr ht
+      refine ⟨h1, fun r hr hi hhi => ?_⟩
+      rw [h2 r hr hi hhi]
+      by_cases hex : ∃ e ∈ i.entries, e.1.drop 1 = hi ∧ r ∈ e.2
+      · rw [if_pos hex]
+      · rw [if_neg hex, denseAt_of_not_mem i r hi (fun e he h1 h2 => hex ⟨e, he, h1, h2⟩)]
+
+/-! ### `to_array()` with the default dtype never fails on representable values -/
+
+theorem listMax_ge (l : List Int) (d : Int) : d ≤ listMax l d ∧ ∀ v ∈ l, v ≤ listMax l d := by
+  unfold listMax
+  induction l generalizing d with
+  | nil => simp
+  | cons a as ih =>
+    simp only [List.foldl_cons]
+    obtain ⟨h1, h2⟩ := ih (max d a)
+    refine ⟨by omega, fun v hv => ?_⟩
+    rcases List.mem_cons.mp hv with rfl | hv
+    · omega
+    · exact h2 v hv
+
+theorem listMin_le (l : List Int) (d : Int) : listMin l d ≤ d ∧ ∀ v ∈ l, listMin l d ≤ v := by
+  unfold listMin
+  induction l generalizing d with
+  | nil => simp
+  | cons a as ih =>
+    simp only [List.foldl_cons]
+    obtain ⟨h1, h2⟩ := ih (min d a)
+    refine ⟨by omega, fun v hv => ?_⟩
+    rcases List.mem_cons.mp hv with rfl | hv
+    · omega
+    · exact h2 v hv
+
+theorem scatRows_succeeds (n ncols c : Nat) (v : Int) (rows : Rows) (out : Array Int) (hr : ∀ r ∈ rows, r < n) :
+    ∃ out', scatRows n ncols c v rows out = .ok out' := by
+  unfold scatRows
+  induction rows generalizing out with
+  | nil => exact ⟨out, rfl⟩
+  | cons r rest ih =>
+    have h1 : ¬ r ≥ n := by have := hr r List.mem_cons_self; omega
+    simp only [List.foldlM_cons, h1, if_false, bind, Except.bind, pure, Except.pure]
+    exact ih _ (fun x hx => hr x (List.mem_cons_of_mem _ hx))
+
+/-- the extremes `to_array()` hands to `fit_dtype` -/
+def dtypeExtremes (i : IIndex) : Int × Int :=
+  let dvs := i.entries.map (fun e => val0 e.1) ++ [i.common]
+  (listMax dvs i.common, min (listMin dvs i.common) 0)
+
+/-- **`to_array()` succeeds** on every well-formed one- or two-axis index whose values some NumPy integer type can
+represent (`C19.Dom` of the extremes): the dtype chosen by the regenerated `fit_dtype` holds the common value and
+every listed value, every column and row id is inside the array -/
+theorem toArray_default_succeeds (i : IIndex) (h : WF i) (hnd : i.ndim ≤ 2)
+    (hdom : C19.Dom (dtypeExtremes i).1 (dtypeExtremes i).2) : ∃ arr, toArray i none none = .ok arr := by
+  obtain ⟨hlo, hhi⟩ := C19.fit_contains _ _ hdom
+  unfold dtypeExtremes at hlo hhi hdom
+  simp only at hlo hhi
+  obtain ⟨hmax1, hmax2⟩ := listMax_ge (i.entries.map (fun e => val0 e.1) ++ [i.common]) i.common
+  obtain ⟨hmin1, hmin2⟩ := listMin_le (i.entries.map (fun e => val0 e.1) ++ [i.common]) i.common
+  have hfit : ∀ v ∈ i.entries.map (fun e => val0 e.1) ++ [i.common],
+      dtFits (some (fitDtype (listMax (i.entries.map (fun e => val0 e.1) ++ [i.common]) i.common)
+        (min (listMin (i.entries.map (fun e => val0 e.1) ++ [i.common]) i.common) 0))) v = true := by
+    intro v hv
+    have h1 := hmax2 v hv
+    have h2 := hmin2 v hv
+    simp only [dtFits, dtRange, DT.contains, Bool.and_eq_true, decide_eq_true_eq]
+    constructor <;> omega
+  unfold toArray
+  simp only
+  unfold scatter
+  have hnd' : ¬ i.ndim > 2 := by omega
+  have hfill := hfit i.common (by simp)
+  simp only [hnd', if_false, hfill, Bool.not_true, Bool.false_eq_true, bind, Except.bind, pure, Except.pure]
+  -- the fold never fails
+  have hfold : ∀ (es : List (Key × Rows)) (out : Array Int), (∀ e ∈ es, e ∈ i.entries) →
+      ∃ out', (es.map fun e => (e.1, e.2, val0 e.1)).foldlM
+        (scatStep i.ndim (dtFits (some (fitDtype (listMax (i.entries.map (fun e => val0 e.1) ++ [i.common]) i.common)
+          (min (listMin (i.entries.map (fun e => val0 e.1) ++ [i.common]) i.common) 0))))
+          i.nrows (if i.ndim > 1 then i.shape.getD 1 0 else 1)) out = .ok out' := by
+    intro es
+    induction es with
+    | nil => intro out _; exact ⟨out, rfl⟩
+    | cons e rest ih =>
+      intro out hsub
+      have he := hsub e List.mem_cons_self
+      simp only [List.map_cons, List.foldlM_cons, bind, Except.bind]
+      have hstep : ∃ out1, scatStep i.ndim (dtFits (some (fitDtype (listMax (i.entries.map (fun e => val0 e.1) ++ [i.common]) i.common)
+          (min (listMin (i.entries.map (fun e => val0 e.1) ++ [i.common]) i.common) 0))))
+          i.nrows (if i.ndim > 1 then i.shape.getD 1 0 else 1) out (e.1, e.2, val0 e.1) = .ok out1 := by
+        unfold scatStep
+        have hne : e.2.isEmpty = false := by simpa using h.nonEmpty e he
+        have hv := hfit (val0 e.1) (List.mem_append.mpr (Or.inl (List.mem_map.mpr ⟨e, he, rfl⟩)))
+        simp only [hne, Bool.false_eq_true, if_false, hv, Bool.not_true]
+        obtain ⟨c, hc1, hc2, _⟩ := col_facts i h hnd e he
+        have hrange : ¬ (i.ndim > 1 ∧ ((if i.ndim > 1 then e.1.getD 1 0 else 0) < 0 ∨
+            (if i.ndim > 1 then e.1.getD 1 0 else 0) ≥ ((if i.ndim > 1 then i.shape.getD 1 0 else 1 : Nat) : Int))) := by
+          rintro ⟨_, hbad⟩
+          have e1 : (if i.ndim > 1 then e.1.getD 1 0 else 0) = (c : Int) := hc2
+          have e2 : (if i.ndim > 1 then i.shape.getD 1 0 else 1 : Nat) = stackWidth i := rfl
+          rw [e1, e2] at hbad
+          omega
+        simp only [hrange, if_false]
+        exact scatRows_succeeds _ _ _ _ _ _ (h.inRange e he)
+      obtain ⟨out1, h1⟩ := hstep
+      rw [h1]
+      exact ih out1 (fun x hx => hsub x (List.mem_cons_of_mem _ hx))
+  obtain ⟨out', hout⟩ := hfold i.entries _ (fun e he => he)
+  rw [hout]
+  exact ⟨_, rfl⟩
 
 end Catii.IIdx
